@@ -205,6 +205,10 @@ fn tiny_cases(tier: Tier) -> Vec<Case> {
         let mut engine = engine_from_bytes(&cfg.bytes()).expect("generated voice");
         engine.condition.set_volume(-1.0e6);
         out.push(Case { name: format!("{} labels=2 cond=volume=-1e6", cfg.describe()), engine, labels: corpus[41..43].to_vec() });
+        // ... and one whose samples are subnormal numbers (around 1e-310)
+        let mut engine = engine_from_bytes(&cfg.bytes()).expect("generated voice");
+        engine.condition.set_volume(-6200.0);
+        out.push(Case { name: format!("{} labels=2 cond=volume=-6200", cfg.describe()), engine, labels: corpus[41..43].to_vec() });
     }
     if tier == Tier::Thorough {
         let cfg = GenCfg { nstate: 3, fperiod: 2, ns: 2, gv: true, ..GenCfg::default() };
